@@ -181,19 +181,20 @@ Proof.
       change 0%nat with (0 + 0)%nat. apply tight_bind; [eapply tight_weaken; [|apply tight_read_string]; lia|]. intros. apply tight_ret. }
     intros ct _. cbv zeta. rewrite Nat.sub_0_r.
     destruct (snd ct =? K.TypeTuple).
-    { change 0%nat with (0 + (0 + (0 + 0)))%nat. apply tightL_bind; [eapply tightL_weaken; [|apply tight_read_short]; lia|]. intros n _.
-      apply tightL_bind; [apply tight_alloc|]. intros _ _. apply tightL_bind.
-      - apply tightL_read_count. rewrite !Nat.sub_0_r. apply Hrec. lia.
+    { change 0%nat with (0 + (0 + 0))%nat. apply tightL_bind; [eapply tightL_weaken; [|apply tight_read_short]; lia|]. intros n _.
+      apply tightL_bind.
+      - apply tightL_read_count. rewrite !Nat.sub_0_r. change 1%nat with (1 + (0 + 0))%nat.
+        apply tightL_bind; [apply Hrec; lia|]. intros t _. apply tightL_bind; [apply tight_alloc | intros; apply tight_ret].
       - intros. apply tight_ret. }
     destruct (snd ct =? K.TypeUDT).
-    { change 0%nat with (0 + (0 + (0 + (0 + (0 + 0)))))%nat.
+    { change 0%nat with (0 + (0 + (0 + (0 + 0))))%nat.
       apply tightL_bind; [eapply tightL_weaken; [|apply tight_read_string]; lia|]. intros ks _.
       apply tightL_bind; [eapply tightL_weaken; [|apply tight_read_string]; lia|]. intros nm _.
       apply tightL_bind; [eapply tightL_weaken; [|apply tight_read_short]; lia|]. intros n _.
-      apply tightL_bind; [apply tight_alloc|]. intros _ _. apply tightL_bind.
-      - apply tightL_read_count. rewrite !Nat.sub_0_r. change 1%nat with (1 + (0 + 0))%nat.
+      apply tightL_bind.
+      - apply tightL_read_count. rewrite !Nat.sub_0_r. change 1%nat with (1 + (0 + (0 + 0)))%nat.
         apply tightL_bind; [eapply tightL_weaken; [|apply tight_read_string]; lia|]. intros fnm _.
-        apply tightL_bind; [|intros; apply tight_ret].
+        apply tightL_bind; [|intros; apply tightL_bind; [apply tight_alloc | intros; apply tight_ret]].
         eapply tightL_weaken with (k := 0%nat); [lia|]. intros b Hb Hl. apply (Hrec 0%nat ltac:(lia) b Hb). lia.
       - intros. apply tight_ret. }
     destruct ((snd ct =? K.TypeMap) || (snd ct =? K.TypeList) || (snd ct =? K.TypeSet)); [|apply tight_ret].
@@ -248,8 +249,8 @@ Proof.
   apply tight_bind; [t0 tight_read_int|]. intros cc. destruct (cc <? 0); [tb|].
   change 0%nat with (0 + (0 + 0))%nat. apply tight_bind.
   { destruct (proto >=? K.protoVersion4); [|tb]. change 0%nat with (0 + 0)%nat. apply tight_bind; [t0 tight_read_int|]. intros pkc.
-    destruct (pkc <? 0); [tb|]. change 0%nat with (0 + 0)%nat. apply tight_bind; [tb|]. intros _.
-    apply tight_read_count. t0 tight_read_short. }
+    destruct (pkc <? 0); [tb|]. change 0%nat with (0 + (0 + 0))%nat. apply tight_bind; [tb|]. intros _.
+    apply tight_bind; [tb|]. intros _. apply tight_read_count. t0 tight_read_short. }
   intros pk. apply tight_bind; [apply tight_read_meta_tail|]. intros. tb.
 Qed.
 
